@@ -681,6 +681,23 @@ func genProject(r *rng.R, nPerturb int) (pProject, []string) {
 		gm := pMethod{Name: "Boxed", File: p.Controllers[0].File, Results: []string{"Box[" + rng.Pick(r, []string{"Rec", "string", "int", "[]Rec", "*Rec", "Box[Rec]", "struct{ A int }", "struct{}", "map[string]Rec"}) + "]", "error"},
 			Annots: []pAnnot{{Name: "Method", Value: "GET"}, {Name: "Route", Value: "/boxed"}}}
 		p.Controllers[0].Methods = append(p.Controllers[0].Methods, gm)
+		if r.Chance(1, 3) {
+			// a type parameter with a DECLARED constraint (a local interface, or one of the standard library): whatever the
+			// tool makes of it - support or a reported error - it must not crash
+			cons := rng.Pick(r, []string{"Number", "fmt.Stringer", "comparable"})
+			raw := ""
+			if cons == "Number" {
+				raw = "type Number interface{ ~int | ~float64 }\n"
+			}
+			arg := map[string]string{"Number": "int", "fmt.Stringer": "Rec", "comparable": "string"}[cons]
+			if cons == "fmt.Stringer" {
+				raw += "func (r Rec) String() string { return r.A }\n\nvar _ fmt.Stringer = Rec{}\n"
+			}
+			p.Types = append(p.Types, pType{Kind: "struct", Name: "Num[T " + cons + "]", Pkg: "ctl", File: "types.go", Raw: raw,
+				Fields: []pField{{Name: "V", Type: "T", Tag: `json:"v"`}}})
+			p.Controllers[0].Methods = append(p.Controllers[0].Methods, pMethod{Name: "Numbered", File: p.Controllers[0].File,
+				Results: []string{"Num[" + arg + "]", "error"}, Annots: []pAnnot{{Name: "Method", Value: "GET"}, {Name: "Route", Value: "/numbered"}}})
+		}
 	}
 	p.Config.EnumValidator = r.Chance(1, 3)
 	p.Config.TopLevelEnum = r.Chance(1, 3)
